@@ -37,7 +37,8 @@ CLAIMED = {
               'COUNTER-TRUTH: byte counters advance by the count the sink reported; FORMULA-TWIN: shared size formulas of '
               'writer and reader are the same expression; FILTER-ARG-PURE: filter constructor arguments depend on the header-visible '
               'property only; STAGING-APPEND: the unit staging buffer is only appended to or taken whole; VALIDATE-PARITY and '
-              'FORMAT-OVERRIDES (see C19); FULL-TRACKS-POS (see C01: a stored LZMA2 chunk leaves the dictionary fill level right).',
+              'FORMAT-OVERRIDES (see C19); FULL-TRACKS-POS (see C01: a stored LZMA2 chunk leaves the dictionary fill level right); '
+              'DICT-BYTE-COVERS (the LZIP dictionary byte announces at least the size in use: the fraction is rounded down).',
               'field-order/width agreement of headers and trailers (LAYOUT-SEQ not built), CRC values, index arithmetic, LZIP '
               'dictionary byte rounding.'),
     'C03': _c('static: ordering (reachability) rule + finite flag model',
@@ -56,7 +57,8 @@ CLAIMED = {
               'accumulators re-initialised), WORKER-DRAIN (the MT reader hands out nothing after an error was stored), '
               'READER-STATE, FINALIZE-RESET, SCAN-TO-ZERO (a backward member scan may only succeed at position 0); GUARD-COMPARE also '
               'requires comparisons with measured quantities to be two-sided; READ-ERR-LATCH (XZReader is not run again after an '
-              'error: a retry cannot resume behind a failed block check).',
+              'error: a retry cannot resume behind a failed block check); UNIT-EXACT (an LZIPReaderMT worker checks that the member it '
+              'decoded fills its unit: nothing inside a unit is trailing data).',
               'that CRC/SHA detect a given corruption, LZMA-level structural errors inside the range-coded payload.'),
     'C05': _c('static: error-propagation taint + I/O count classification at every Read::read / Write::write site',
               'ERR-SWALLOW (whole crate) and IO-COUNT (W1 dropped write count, W2 transforming writer returning a partial count, '
@@ -69,7 +71,7 @@ CLAIMED = {
               'OWED-OUTPUT (BCJ2Reader returns Ok after an exhausted input only under uncompressed_size == 0 or with a non-zero '
               'count; path conditions), MAGIC-PREFIX (an LZIP member probe says "trailing data" only after comparing the bytes it '
               'got with the magic), FLUSH-FORWARD (a writer that forwards flush to its sink does so on every Ok path), '
-              'READ-ERR-LATCH (see C06; covers XZReader), ERR-STATE-ENTRY (see C09).',
+              'READ-ERR-LATCH (see C06; covers XZReader, BCJReader, BCJ2Reader), ERR-STATE-ENTRY (see C09), WRITE-ERR-LATCH (see C15).',
               'that truncation is *detected* by the end-of-stream consistency checks (value dependent).'),
     'C06': _c('static: interval analysis with guard refinement across calls/fields; call-graph SCCs',
               'ALLOC-TAINT (every decoder-reachable allocation size bounded), INT-OVF (overflow asserts in loop-free scalar '
@@ -103,7 +105,7 @@ CLAIMED = {
               '(MT cutter cuts exactly at the ST reader\'s dictionary-reset values, same classes and header lengths), '
               'FRESH-CODEC, MT-TERMINATOR, ERR-SWALLOW-MT, WORKER-DRAIN, STAGING-APPEND, TRAILING-SKIP (the LZIP member scan '
               'probes for the end of the last member, so trailing data is skipped as the single-threaded reader skips it), '
-              'ERRCHK-BEFORE-HANDOUT (see C09).',
+              'ERRCHK-BEFORE-HANDOUT (see C09), UNIT-EXACT (see C04).',
               'byte equality of outputs (needs C01), behaviour under interleavings beyond the ordering discipline.'),
     'C09': _c('static: all-paths rule on worker CFGs + dominance of error checks',
               'WORKER-NOTIFY (every path from a successful steal to an exit posts to the result channel), ERRCHK-BEFORE-BLOCK '
@@ -159,7 +161,9 @@ CLAIMED = {
     'C15': _c('static: who-may-be-unsafe confinement + per-site bounds obligations on provenance',
               'UNSAFE-CONFINE (unsafe only in four modules; zero in no_std without optimization), UNSAFE-GUARD (11 sites), '
               'GUARD-FIELD-WRITERS, ASM-CLAMP, MOVE-KEEPS-HISTORY (the window move offset is read_pos + c - keep_size_before '
-              'with c <= 1, rounded DOWN by the alignment mask: the history the unchecked readers reach into is kept).',
+              'with c <= 1, rounded DOWN by the alignment mask: the history the unchecked readers reach into is kept), '
+              'WRITE-ERR-LATCH (a writer whose range encoder writes straight into the sink is not run again after a sink error: '
+              'the interrupted encoder would reach the unchecked match extension with a start in front of the window).',
               'the non-local precondition of extend_match (read_pos + current_len >= distance) which rests on match-finder/window '
               'invariants.'),
     'C16': _c('static: who-reads-how classification of every source access in the single-stream decoders',
